@@ -191,3 +191,39 @@ def run_seeded(props=None, root=None, verbose=True):
         if verbose:
             print(sid, 'exit', code, rules)
     return out
+
+
+def _benign_job(args):
+    bid, prop, root = args
+    from .__main__ import run_check
+    here = os.path.dirname(os.path.dirname(os.path.abspath(__file__)))
+    ov = apply_unified_diff(root, open(os.path.join(here, 'benign', bid, 'patch.diff')).read())
+    if ov is None:
+        return bid, prop, 'n/a', []
+    code, R = run_check(prop, False, root=root, overlay=ov, quiet=True, write=False)
+    det = [(o.rule, o.construct[:60], o.detail[:120]) for o in R.obs if o.status == 'VIOLATION'] or ([('ANALYSIS-ERROR', getattr(R, 'error', '')[:160], '')] if code == 2 else [])
+    return bid, prop, code, det
+
+
+def run_benign(props=None, ids=None, root=None, jobs=16, verbose=True):
+    """Every check against every kept independent behaviour-preserving refactoring (/verif/benign/<id>/patch.diff): all must stay silent."""
+    root = root or REPO
+    here = os.path.dirname(os.path.dirname(os.path.abspath(__file__)))
+    bd = os.path.join(here, 'benign')
+    allprops = sorted('C' + f[1:-3] for f in os.listdir(os.path.join(here, 'tcverif', 'rules')) if f.startswith('c') and f[1:-3].isdigit())
+    work = []
+    for bid in sorted(os.listdir(bd)) if os.path.isdir(bd) else []:
+        if ids and not any(bid == i or bid.startswith(i + '-') for i in ids):
+            continue
+        for p in (props or allprops):
+            work.append((bid, p, root))
+    with ProcessPoolExecutor(max_workers=jobs) as ex:
+        res = list(ex.map(_benign_job, work, chunksize=2))
+    bad = [r for r in res if r[2] not in (0, 'n/a')]
+    out = {'runs': len(res), 'silent': sum(1 for r in res if r[2] == 0), 'alarms': [{'id': r[0], 'property': r[1], 'exit': r[2], 'what': r[3][:3]} for r in bad],
+           'not_applicable': sorted({r[0] for r in res if r[2] == 'n/a'})}
+    if verbose:
+        print(f"benign refactorings: {out['silent']}/{out['runs']} (refactoring x check) silent; {len(bad)} alarm(s)")
+        for a in out['alarms']:
+            print('  ALARM', a['id'], a['property'], a['exit'], a['what'])
+    return out
